@@ -19,8 +19,8 @@ ASSUMPTIONS = ["the source is a raw HDF5 video (contiguous frames); faults are i
                "the echo model stands in for the network (the property is about the reader/consumer protocol)",
                "a hang is decided logically: producer finished and queue empty and consumer parked in Queue.get on 3 consecutive polls (or the mirror state); watchdog expiry otherwise is inconclusive"]
 SHARDS = {"quick": 8, "thorough": 16}
-N = {"quick": 2400, "thorough": 120000}
-BUDGET = {"quick": 100, "thorough": 1500}
+N = {"quick": 2400, "thorough": 480000}
+BUDGET = {"quick": 100, "thorough": 600}
 TIMEOUT = {"quick": 600, "thorough": 3000}
 SELF_SHARDED = True
 REGIMES = {"producer-slow": (0.35, 0.0), "consumer-slow": (0.0, 0.35), "balanced": (0.15, 0.15), "free": (0.0, 0.0)}
